@@ -179,3 +179,33 @@ Proof.
     destruct (c_crl c) as [|v0 s0] eqn:EC; [cbn [fst]; rewrite R; exact Core|].
     destruct (crl_check _ _ _ _ _ _) as [r clog]. cbn [fst cr_method rmethod_eqb andb]. reflexivity.
 Qed.
+
+(* ---- C04 / C05: the leaf result of the model passes the clauses of Run/C04.v and Run/C05.v ---- *)
+From NCG Require Run.C04 Run.C05.
+Theorem model_passes_c04_spec w st urls : urls <> [] ->
+  Run.C04.c04_spec w st urls (cr_result (fst (ocsp_check (w_ocsp w) (w_now w) st urls))) = 0.
+Proof.
+  intros Hne. rewrite (ocsp_check_exact (w_ocsp w) (w_now w) st urls Hne). unfold Run.C04.c04_spec.
+  change (fun u => decisive (server_check (w_ocsp w) (w_now w) st u)) with (dec (w_ocsp w) (w_now w) st).
+  destruct (find (dec (w_ocsp w) (w_now w) st) urls) as [u|] eqn:F.
+  - cbn [cr_result]. pose proof (find_some _ _ F) as [Hin D]. unfold dec in D.
+    destruct (server_check (w_ocsp w) (w_now w) st u) eqn:S; cbn in D; try discriminate; cbn [sclass_res rres_eqb andb negb Run.C04.sclass_eqb]; try reflexivity.
+    assert (E : existsb (fun u0 => Run.C04.sclass_eqb (server_check (w_ocsp w) (w_now w) st u0) COk) urls = true).
+    { apply existsb_exists. exists u. split; [exact Hin|rewrite S; reflexivity]. }
+    rewrite E. reflexivity.
+  - cbn [cr_result rres_eqb andb]. reflexivity.
+Qed.
+
+Theorem model_passes_c05_spec w st leaf : c_crl leaf <> [] ->
+  Run.C05.c05_spec w st leaf (cr_result (fst (crl_check (w_fetch w) (w_now w) st (c_serial leaf) (c_freshest leaf) (c_crl leaf)))) = 0.
+Proof.
+  intros Hne. rewrite (crl_check_exact (w_fetch w) (w_now w) st (c_serial leaf) (c_freshest leaf) (c_crl leaf) Hne).
+  unfold Run.C05.c05_spec.
+  destruct (find (fun u => negb (clear_b (w_fetch w) (w_now w) st (c_serial leaf) (c_freshest leaf) u)) (c_crl leaf)) as [u|] eqn:F.
+  - cbn [cr_result]. unfold stop_result.
+    destruct (point_check (w_fetch w) (w_now w) st (c_serial leaf) (c_freshest leaf) u) as [[| |]|]; cbn [rres_eqb andb negb]; reflexivity.
+  - cbn [cr_result rres_eqb andb].
+    assert (A : forallb (clear_b (w_fetch w) (w_now w) st (c_serial leaf) (c_freshest leaf)) (c_crl leaf) = true).
+    { apply forallb_forall. intros v Hv. pose proof (find_none _ _ F v Hv) as N. apply negb_false_iff in N. exact N. }
+    rewrite A. reflexivity.
+Qed.
